@@ -156,5 +156,5 @@ CHECK_TIERS["C20"] = {"quick": dict(phases=[("compiled", 0.4), ("bounds", 0.6)],
                       "thorough": dict(phases=[("compiled", 0.4), ("bounds", 0.6)], count=200000, run_cap=60)}
 CHECK_TIERS["C19"] = {"quick": dict(phases=[("compiled", 0.7), ("twin", 0.3)], count=2000000, run_cap=15),
                       "thorough": dict(phases=[("compiled", 0.7), ("twin", 0.3)], count=40000000, run_cap=60)}
-CHECK_TIERS["C09"] = {"quick": dict(budget_s=60, phases=[("compiled", 0.6), ("twin", 0.4)], count=2000000, run_cap=30),
+CHECK_TIERS["C09"] = {"quick": dict(budget_s=80, phases=[("compiled", 0.6), ("twin", 0.4)], count=2000000, run_cap=30),
                       "thorough": dict(budget_s=600, phases=[("compiled", 0.6), ("twin", 0.4)], count=40000000, run_cap=60)}
